@@ -2,13 +2,13 @@
 # verifyseed.sh <pid> <A|B|C|D> "<demo command>" — in the sub-agent's scratch worktree: the change applies, builds,
 # the pinned suite passes with it, the demonstration fails with it and passes without it. (C, D = second wave, SEED2/)
 PID=$1; X=$2; DEMO=$3; WT=/tmp/seed/$PID
-case $X in A|B) SD=SEED;; C|D) SD=SEED2;; *) SD=SEED3;; esac
+case $X in A|B) SD=SEED;; C|D) SD=SEED2;; E|F) SD=SEED3;; *) SD=SEED4;; esac
 export GOFLAGS=-mod=mod GOPROXY=off GOSUMDB=off GOTOOLCHAIN=local
 cd $WT || exit 3
-git checkout -q -- . ; git clean -fdq -e SEED -e SEED2 -e SEED3
-echo "== demo WITHOUT change"; (set -o pipefail; eval "$DEMO") > /tmp/seed/$PID.$X.without.log 2>&1; echo "rc=$?"; tail -3 /tmp/seed/$PID.$X.without.log
+git checkout -q -- . ; git clean -fdq -e SEED -e SEED2 -e SEED3 -e SEED4
+echo "== demo WITHOUT change"; (set -o pipefail; eval "$DEMO") > /tmp/w2logs/$PID.$X.without.log 2>&1; echo "rc=$?"; tail -3 /tmp/w2logs/$PID.$X.without.log
 git apply $SD/$X.diff || { echo "does not apply"; exit 1; }
 echo "== build"; go build ./... && echo ok
 echo "== suite with change"; /verif/baseline.sh $WT | tail -3
-echo "== demo WITH change"; (set -o pipefail; eval "$DEMO") > /tmp/seed/$PID.$X.with.log 2>&1; echo "rc=$?"; tail -5 /tmp/seed/$PID.$X.with.log
-git checkout -q -- . ; git clean -fdq -e SEED -e SEED2 -e SEED3; git status --short | grep -v SEED | head -3
+echo "== demo WITH change"; (set -o pipefail; eval "$DEMO") > /tmp/w2logs/$PID.$X.with.log 2>&1; echo "rc=$?"; tail -5 /tmp/w2logs/$PID.$X.with.log
+git checkout -q -- . ; git clean -fdq -e SEED -e SEED2 -e SEED3 -e SEED4; git status --short | grep -v SEED | head -3
